@@ -44,6 +44,27 @@ pub struct Outcome {
     pub violations: Vec<Violation>,
 }
 
+/// What the minimiser and the fresh-process protocol need from an execution.
+#[derive(Clone, Debug, Serialize, Deserialize)]
+pub struct ExecResult {
+    pub violations: Vec<Violation>,
+    pub schedule: Vec<u8>,
+    pub report: SimReport,
+    pub n_victims: u64,
+    pub ref_digest: u64,
+}
+impl From<&Outcome> for ExecResult {
+    fn from(o: &Outcome) -> Self {
+        ExecResult {
+            violations: o.violations.clone(),
+            schedule: o.report.schedule.clone(),
+            report: o.report.clone(),
+            n_victims: o.obs.iter().flatten().filter(|x| matches!(x, Obs::Victim(_))).count() as u64,
+            ref_digest: digest_reference(&o.reference),
+        }
+    }
+}
+
 pub fn panic_msg(p: &(dyn std::any::Any + Send)) -> String {
     if let Some(s) = p.downcast_ref::<&str>() {
         s.to_string()
@@ -169,14 +190,22 @@ pub fn reference(w: &Workload) -> Vec<Vec<String>> {
         .collect()
 }
 
+#[derive(Clone, Copy, Debug)]
 pub struct ExecCfg {
     pub max_steps: u64,
     pub stall_ms: u64,
     pub hang_ms: u64,
+    /// 0 = off; k = every k-th allocation of a simulated thread is a scheduling point
+    pub alloc_every: u32,
 }
 impl Default for ExecCfg {
     fn default() -> Self {
-        ExecCfg { max_steps: 30_000, stall_ms: 1500, hang_ms: 30_000 }
+        ExecCfg { max_steps: 30_000, stall_ms: 1500, hang_ms: 30_000, alloc_every: 0 }
+    }
+}
+impl ExecCfg {
+    pub fn with_alloc(alloc_every: u32) -> Self {
+        ExecCfg { alloc_every, max_steps: if alloc_every > 0 { 80_000 } else { 30_000 }, ..Default::default() }
     }
 }
 
@@ -189,7 +218,7 @@ fn concurrent(
     shared: &Handles,
 ) -> (Vec<Vec<Obs>>, Vec<Violation>, SimReport, bool) {
     let n = w.threads.len();
-    let sim = Sim::new(n, source, w.faults.clone(), cfg.max_steps);
+    let sim = Sim::new(n, source, w.faults.clone(), cfg.max_steps, cfg.alloc_every);
     let w_arc = Arc::new(w.clone());
     let check_each = n == 1;
     let mut joins = Vec::new();
